@@ -55,6 +55,8 @@ Proof.
   destruct (lookup c s p); reflexivity.
 Qed.
 
+Ltac stop_case := cbn; split; [reflexivity|split; [right; reflexivity|intros X; discriminate X]].
+
 Theorem map_failure_transparent c s o len e :
   cfg_ok c = true -> map_len c s o = Some len -> op_env o = Some e -> env_ret e = 0 ->
   st_of (step c s o) = s
@@ -74,15 +76,15 @@ Proof.
       apply N.eqb_neq in Hp.
       destruct (n <=? cur_size c s p) eqn:Hcur; [discriminate|].
       rewrite (get_size_lookup c s p Hp) in Hcur.
-      destruct (find_blk p (live s)); [|cbn; auto].
+      destruct (find_blk p (live s)); [|stop_case].
       destruct (lookup c s p) as [x|x|].
-      * destruct (negb (sl_contains c x p)); [cbn; auto|].
+      * destruct (negb (sl_contains c x p)); [stop_case|].
         rewrite Hcur. rewrite (alloc_fail c s n e len Hc Hm He). cbn.
         split; [reflexivity|]. split; [left; reflexivity|]. intros _. unfold map_call. rewrite He. reflexivity.
-      * destruct (negb (lg_addr c x =? p)); [cbn; auto|].
+      * destruct (negb (lg_addr c x =? p)); [stop_case|].
         rewrite Hcur. rewrite (alloc_fail c s n e len Hc Hm He). cbn.
         split; [reflexivity|]. split; [left; reflexivity|]. intros _. unfold map_call. rewrite He. reflexivity.
-      * cbn; auto.
+      * stop_case.
 Qed.
 
 (* "keeps working": the failed call can be deleted from the history *)
